@@ -435,7 +435,7 @@ def read_sinex_sites(file):
         station_description = line[21:43].lstrip()
         lon = DMSAngle(line[44:55].lstrip())
         lat = DMSAngle(line[56:67].lstrip())
-        h = float(line[67:73])
+        h = float(line[68:75])
         info = (site, point, domes, obs, station_description, lon, lat, h)
         sites.append(info)
 
